@@ -9,6 +9,7 @@ import (
 	"github.com/gopacket/gopacket"
 
 	"github.com/scionproto/scion/pkg/addr"
+	libepic "github.com/scionproto/scion/pkg/experimental/epic"
 	"github.com/scionproto/scion/pkg/slayers"
 	"github.com/scionproto/scion/pkg/slayers/path"
 	"github.com/scionproto/scion/pkg/slayers/path/epic"
@@ -285,14 +286,16 @@ func (e *Env) Build(a *APkt, o BuildOpts, now time.Time) ([]byte, error) {
 				w.Hops = append(w.Hops, WHop{In: h.ConsIngress, Eg: h.ConsEgress, Exp: h.ExpTime, Mac: h.Mac})
 			}
 			n := len(w.Hops)
-			// A wrong HVF is, in equal parts: a flipped bit; the right value for the other of the two
-			// last hop fields; the right value for a packet that differs in ONE input of the HVF
+			// HVFs are computed the way a sender does: with the library (libepic.CalcMac) from the
+			// hop authenticator; whether they are valid is decided independently by Abstract (EpicHVF).
+			// A wrong HVF is, in equal parts: a flipped bit; the sender's value for the other of the two
+			// last hop fields; the sender's value for a packet that differs in ONE input of the HVF
 			// (payload length, a byte of the source host address - the last one included -, source
-			// ISD-AS, packet id, timestamp): what an on-path party produces by altering the packet.
+			// ISD-AS, packet id): what an on-path party produces by altering the packet.
 			hvf := func(k int, good bool) []byte {
-				sl, ts, pid, ia := uint8(s.SrcAddrType)&3, ts0, id, uint64(s.SrcIA)
-				host := append([]byte(nil), s.RawSrcAddr...)
-				pl := uint16(payloadLen)
+				hdr := slayers.SCION{SrcAddrType: s.SrcAddrType, RawSrcAddr: append([]byte(nil), s.RawSrcAddr...),
+					SrcIA: s.SrcIA, PayloadLen: uint16(payloadLen)}
+				pid := ep.PktID
 				flavour := 0
 				if !good {
 					flavour = 1 + r.Intn(3)
@@ -303,25 +306,30 @@ func (e *Env) Build(a *APkt, o BuildOpts, now time.Time) ([]byte, error) {
 				case flavour == 3:
 					switch r.Intn(6) {
 					case 0:
-						pl += uint16(1 + r.Intn(40))
+						hdr.PayloadLen += uint16(1 + r.Intn(40))
 					case 1:
-						pl -= uint16(1 + r.Intn(8))
+						hdr.PayloadLen -= uint16(1 + r.Intn(8))
 					case 2:
-						host[len(host)-1] ^= 1 << r.Intn(8)
+						hdr.RawSrcAddr[len(hdr.RawSrcAddr)-1] ^= 1 << r.Intn(8)
 					case 3:
-						host[r.Intn(len(host))] ^= 0x10
+						hdr.RawSrcAddr[r.Intn(len(hdr.RawSrcAddr))] ^= 0x10
 					case 4:
-						ia ^= 1 << r.Intn(48)
+						hdr.SrcIA ^= 1 << r.Intn(48)
 					default:
-						pid[r.Intn(8)] ^= 4
+						pid.Counter ^= 1 << r.Intn(32)
 					}
 				}
-				v := EpicHVF(e.sigma(w, k, viaExt), sl, ts, pid, ia, host, pl)
+				sigma := e.sigma(w, k, viaExt)
+				m, err := libepic.CalcMac(sigma[:], pid, &hdr, ts0, nil)
+				if err != nil {
+					m = []byte{0, 0, 0, 0}
+				}
+				v := append([]byte(nil), m...)
 				if flavour == 1 || (flavour == 2 && n < 2) {
 					b := r.Intn(32)
 					v[b/8] ^= 1 << (b % 8)
 				}
-				return v[:]
+				return v
 			}
 			ep.LHVF = hvf(n-1, a.Ep.Lhvf)
 			if n >= 2 {
